@@ -150,6 +150,7 @@ def _run(ctx):
                            (aq("convert_by_layer"), "formulas._mix_by_volume_pairs"),
                            (aq("convert_by_absmass"), "formulas._mix_by_weight_pairs")):
         import networkx as nx
+        caller, callee = ctx.src.func(caller).qual, ctx.src.func(callee).qual      # (a moved and re-exported helper keeps its role)
         ctx.check(caller in cg and callee in cg and nx.has_path(cg, caller, callee), "R2", f"{caller.split('.')[-1]} -> {callee.split('.')[-1]}",
                   f"{caller} no longer delegates to {callee}", fsite(ctx, caller))
     # the call forms: argument handling
